@@ -1,2 +1,13 @@
-"""Matchers for known findings of the tzfile area (none open; F-C05-resolve-24h was fixed by 7f58098)."""
-MATCHERS = {}
+"""Matchers for known findings of the tzfile area."""
+
+
+def tzical_std_offset_change(payload):
+    """F-C04-tzical-std-change: an iCalendar zone whose STANDARD offset changes; instants within the size
+    of that change of the change are converted with the wrong offset (generic _tzinfo._fromutc assumes
+    utcoffset() - dst() constant).  Only payloads of the era-boundary sub-stream (near_std_change)."""
+    i = payload.get("input") or {}
+    return (payload.get("kind", "").startswith("property (generated zone): next to a change of the zone's standard offset")
+            and i.get("near_std_change") is True and str(i.get("zone", "")).startswith("tzical:multi-era"))
+
+
+MATCHERS = {"tzical_std_offset_change": tzical_std_offset_change}
